@@ -4,3 +4,4 @@ pub mod util;
 pub mod clock;
 pub mod strategy;
 pub mod cksum;
+pub mod ext;
